@@ -389,6 +389,22 @@ func c02Tamperings() []tampering {
 			}
 			s.Facts.SigOK = false
 		}},
+		// one more octet behind the signature (a "recovery id" or anything else); listed twice so that the quick tier's alternation over
+		// key types gives every key type one of the two
+		tampering{"signature-one-octet-appended", "urd", func(h *histCtx, s *opStep) {
+			s.Spec.PostJWS = func(j string) string {
+				t, _ := tamperSegment(j, 2, func(b []byte) []byte { return append(b, fw.Pick(h.r, []byte{0, 1, 27, 28, 0x5a, 0xff})) })
+				return t
+			}
+			s.Facts.SigOK = false
+		}},
+		tampering{"signature-one-octet-appended (other key types)", "urd", func(h *histCtx, s *opStep) {
+			s.Spec.PostJWS = func(j string) string {
+				t, _ := tamperSegment(j, 2, func(b []byte) []byte { return append(b, fw.Pick(h.r, []byte{0, 1, 27, 28, 0x5a, 0xff})) })
+				return t
+			}
+			s.Facts.SigOK = false
+		}},
 		tampering{"untampered", "urd", func(h *histCtx, s *opStep) {}},
 	)
 	return ts
